@@ -31,12 +31,13 @@ from .ViscoPlastic import RateLaw
 from .ViscoElastic import Maxwell
 from .Yield import YieldSurface
 from . import _spectral
-from ...FEM._linalg import FeArray, TensorProd
+from ...FEM._linalg import FeArray
 from ...Utilities import _params, _types, Tic
 
 # in-plane components [xx, yy, xy] of a 2D field inside the 3D (6,) Kelvin vector, and the
-# out-of-plane index condensed out under plane stress
+# out-of-plane ones [zz, yz, xz] condensed out under plane stress
 IDX_2D = [0, 1, 5]
+IDX_OUT = [2, 3, 4]
 ZZ = 2
 
 
@@ -368,8 +369,9 @@ class Behavior(_IModel):
     ) -> FeArray:
         r"""The 3D Kelvin strain the material actually sees.
 
-        Plane strain leaves ``eps_zz = 0``. Plane stress solves it so that ``sig_zz = 0``,
-        which is a *solve* rather than a formula once the material can flow.
+        Plane strain leaves the out-of-plane strains at zero. Plane stress solves them so that
+        ``sig_zz = sig_yz = sig_xz = 0``, which is a *solve* rather than a formula once the
+        material can flow.
         """
         eps_e_pg = FeArray.asfearray(eps_e_pg)
         if self.dim == 3:
@@ -387,11 +389,13 @@ class Behavior(_IModel):
     def __Plane_stress_strain(
         self, eps6_e_pg: FeArray, zOld_e_pg: FeArray, dt: float
     ) -> FeArray:
-        r"""Solves ``eps_zz`` so that ``sig_zz = 0``, through the material's own response.
+        r"""Solves ``eps_zz, eps_yz, eps_xz`` so that ``sig_zz = sig_yz = sig_xz = 0``, through
+        the material's own response.
 
         Linear while elastic, so one step converges. Once the material flows the elastic
         closed form is wrong — it leaves a large ``sig_zz`` behind — hence a Newton driven
-        by the algorithmic ``C[zz, zz]``.
+        by the out-of-plane block of the algorithmic tangent. The shears stay at zero on their
+        own unless the stiffness couples them to the plane (an axis tilted out of it).
         """
         eps6_e_pg = eps6_e_pg.copy()
         # sig_zz cannot be driven below the stress equivalent of the inner solve's accuracy:
@@ -402,15 +406,19 @@ class Behavior(_IModel):
         tol = max(self._planeStress_tol * max(scale, 1.0), floor)
         for _ in range(self._maxIter):
             sig6_e_pg, C6_e_pg, _, _ = self.__Integrate_3d(eps6_e_pg, zOld_e_pg, dt)
-            r_e_pg = sig6_e_pg[..., ZZ]
+            r_e_pg = sig6_e_pg[..., IDX_OUT]
             if np.max(np.abs(r_e_pg)) < tol:
                 break
-            eps_zz = eps6_e_pg[..., ZZ] - r_e_pg / C6_e_pg[..., ZZ, ZZ]
-            eps6_e_pg[..., ZZ] = eps_zz
+            C_oo = C6_e_pg[..., IDX_OUT, :][..., :, IDX_OUT]
+            eps_out = (
+                eps6_e_pg[..., IDX_OUT]
+                - np.linalg.solve(C_oo, r_e_pg[..., None])[..., 0]
+            )
+            eps6_e_pg[..., IDX_OUT] = eps_out
         else:
             raise AssertionError(
-                f"plane-stress sig_zz = 0 did not converge in {self._maxIter} iterations "
-                f"(max |sig_zz| = {np.max(np.abs(r_e_pg)):.3e})"
+                f"plane-stress sig_zz = sig_yz = sig_xz = 0 did not converge in {self._maxIter} "
+                f"iterations (max out-of-plane |sig| = {np.max(np.abs(r_e_pg)):.3e})"
             )
         return eps6_e_pg
 
@@ -474,12 +482,12 @@ class Behavior(_IModel):
         return res.sig, C_alg, z_e_pg, res.converged
 
     def __Condense(self, C_e_pg: FeArray) -> FeArray:
-        """Static condensation of the zz row and column, giving the in-plane tangent."""
+        """Static condensation of the out-of-plane rows and columns, giving the in-plane tangent."""
         C_in = C_e_pg[..., IDX_2D, :][..., :, IDX_2D]
-        c_iz = C_e_pg[..., IDX_2D, ZZ]
-        c_zi = C_e_pg[..., ZZ, :][..., IDX_2D]
-        c_zz = C_e_pg[..., ZZ, ZZ]
-        return C_in - TensorProd(c_iz, c_zi) / c_zz
+        C_io = C_e_pg[..., IDX_2D, :][..., :, IDX_OUT]
+        C_oi = C_e_pg[..., IDX_OUT, :][..., :, IDX_2D]
+        C_oo = C_e_pg[..., IDX_OUT, :][..., :, IDX_OUT]
+        return C_in - C_io @ np.linalg.solve(C_oo, C_oi)
 
     # --------------------------------------------------------------------------
     # The local solve
